@@ -750,8 +750,14 @@ fn update_case(old: &str, new: &str, attrs: &[Attribution], author: &str, ts: u1
                     // not in the property's quantifier (a range with end < start)
                     tags.push(format!("identity-inverted-prior:{}", if same { "same" } else { "differs" }));
                 } else {
+                    let n_lines = line_ranges(old).len();
+                    let authors_of = |v: &Vec<LineAttribution>| -> Vec<Option<String>> { expand_lines(v, n_lines).into_iter().map(|x| x.map(|y| y.0)).collect() };
+                    let same_authors = authors_of(before) == authors_of(after);
                     let sig = if zero_len {
                         "identity:zero-length-prior"
+                    } else if same_authors && !same {
+                        // every line keeps its author; only `overrode` differs
+                        "identity:overrode-depends-on-prior-order"
                     } else if ts_shared {
                         "identity:timestamp-shared-by-authors"
                     } else {
